@@ -24,7 +24,7 @@ const prop = "C04"
 
 func TestMain(m *testing.M) {
 	vkit.Rec(prop).SetLevel("exploration",
-		"the full product {operator-authorized, activation-token, wrapper, re-wrapped} x {in-memory, file, store-once} x storage wrapper {off,on} x node-side storage wrapper {off,on} x root configuration {default, both roots valid at once} is enumerated once (exhaustive), then rapid draws random application state / application-specific params and node-side substitutions (other key, altered server key, echoed nonce empty / truncated / extended / bit-flipped / another node's, fields swapped with another node's response). The response, every certificate and the stored record are PARSED and compared field by field, and the stored credentials complete a real handshake with a listener on the same server; substituted responses must be refused and leave node storage unchanged. Non-trivial = at least one wrapper, a non-in-memory back end or a substitution; distinct = configuration tuple (+ substitution).")
+		"the full product {operator-authorized, activation-token, wrapper, re-wrapped} x {in-memory, file, store-once} x storage wrapper {off,on} x node-side storage wrapper {off,on} x root configuration {default, both roots valid at once} x node storage back end {in-memory, file} is enumerated once (exhaustive), then rapid draws random application state / application-specific params and node-side substitutions (other key, altered server key, echoed nonce empty / truncated / extended / bit-flipped / another node's, fields swapped with another node's response). The response, every certificate and the stored record are PARSED and compared field by field, and the stored credentials complete a real handshake with a listener on the same server; substituted responses must be refused and leave node storage unchanged. Non-trivial = at least one wrapper, a non-in-memory back end or a substitution; distinct = configuration tuple (+ substitution).")
 	vkit.Main(m)
 }
 
@@ -34,6 +34,7 @@ type config struct {
 	StorageWrap bool   `json:"server_storage_wrapper"`
 	NodeWrap    bool   `json:"node_storage_wrapper"`
 	Roots       string `json:"root_configuration"`
+	NodeBackend string `json:"node_storage_backend"`
 	State       string `json:"state,omitempty"`
 	Subst       string `json:"substitution,omitempty"`
 }
@@ -56,6 +57,11 @@ func enroll(t vkit.TB, c config, state, params *structpb.Struct, subst string) b
 	if c.NodeWrap {
 		nodeOpts = append(nodeOpts, nodeenrollment.WithStorageWrapper(vkit.NewAead("node-wrapper")))
 	}
+	if c.NodeBackend == "" {
+		c.NodeBackend = "inmem"
+	}
+	nodeStore, nodeCleanup := vkit.NewBackend(backends[c.NodeBackend])
+	defer nodeCleanup()
 	// a second, fully enrolled node: re-wrapper and source of foreign material
 	other := vkit.NewActor("other")
 	if err := w.Enroll(other); err != nil {
@@ -69,7 +75,7 @@ func enroll(t vkit.TB, c config, state, params *structpb.Struct, subst string) b
 	var req *types.FetchNodeCredentialsRequest
 	switch c.Flow {
 	case "operator-authorized":
-		a = vkit.NewActor("subject", nodeOpts...)
+		a = vkit.NewActorOn(nodeStore, "subject", nodeOpts...)
 		req = a.Request()
 		if _, err := registration.AuthorizeNode(w.Ctx, w.Store, req, w.O(nodeenrollment.WithState(state))...); err != nil {
 			return fail("authorize-failed", "AuthorizeNode on an honest request failed: %v", err)
@@ -80,17 +86,17 @@ func enroll(t vkit.TB, c config, state, params *structpb.Struct, subst string) b
 		if err != nil {
 			return fail("token-failed", "%v", err)
 		}
-		a = vkit.NewActor("subject", append([]nodeenrollment.Option{nodeenrollment.WithActivationToken(token)}, nodeOpts...)...)
+		a = vkit.NewActorOn(nodeStore, "subject", append([]nodeenrollment.Option{nodeenrollment.WithActivationToken(token)}, nodeOpts...)...)
 		reqOpts = append(reqOpts, nodeenrollment.WithActivationToken(token))
 		handleOpts = append(handleOpts, nodeenrollment.WithActivationToken(token))
 		req = a.Request(reqOpts...)
 	case "wrapper":
 		rw := vkit.NewAead("registration")
-		a = vkit.NewActor("subject", nodeOpts...)
+		a = vkit.NewActorOn(nodeStore, "subject", nodeOpts...)
 		req = a.Request(nodeenrollment.WithRegistrationWrapper(rw), nodeenrollment.WithWrappingRegistrationFlowApplicationSpecificParams(params))
 		serverOpts = w.O(nodeenrollment.WithRegistrationWrapper(rw), nodeenrollment.WithState(state))
 	case "re-wrapped":
-		a = vkit.NewActor("subject", nodeOpts...)
+		a = vkit.NewActorOn(nodeStore, "subject", nodeOpts...)
 		req = a.Request()
 		blob, err := nodeenrollment.EncryptMessage(w.Ctx, &types.WrappingRegistrationFlowInfo{CertificatePublicKeyPkix: a.CertPkix, Nonce: a.Nonce, ApplicationSpecificParams: params}, other.Creds)
 		if err != nil {
@@ -272,7 +278,37 @@ func enroll(t vkit.TB, c config, state, params *structpb.Struct, subst string) b
 	if derr != nil || !authd {
 		return fail("credentials-do-not-connect", "the enrolled node could not authenticate to its own server with the stored credentials: %v (authenticated=%v)", derr, authd)
 	}
-	nontrivial := c.StorageWrap || c.NodeWrap || c.Backend != "inmem" || subst != "" || c.Flow == "wrapper"
+	// the same records are written AGAIN, with different (often smaller) content: what is
+	// stored must still be exactly what the later call used
+	if c.Flow == "wrapper" && c.Backend != "storeonce" {
+		smaller := vkit.UniqueStruct("s")
+		opts2 := append(append([]nodeenrollment.Option(nil), serverOpts...), nodeenrollment.WithState(smaller))
+		// the node's original request is replayed (it is still within its validity window)
+		resp2, err := registration.FetchNodeCredentials(w.Ctx, w.Store, req, opts2...)
+		if err != nil || len(resp2.GetEncryptedNodeCredentials()) == 0 {
+			return fail("second-fetch-failed", "the wrapper flow re-sent by the same node failed: %v", err)
+		}
+		ni2, err := types.LoadNodeInformation(w.Ctx, w.Inner, a.KeyID, w.O()...)
+		if err != nil {
+			return fail("record-unreadable-after-second-fetch", "after the node fetched again the stored record cannot be loaded: %v", err)
+		}
+		sk2, _ := ecdh.X25519().NewPrivateKey(ni2.ServerEncryptionPrivateKeyBytes)
+		if sk2 == nil || !bytes.Equal(sk2.PublicKey().Bytes(), resp2.ServerEncryptionPublicKeyBytes) || !proto.Equal(ni2.State, smaller) {
+			return fail("record-differs-after-second-fetch", "after the node fetched again the stored record is not what the response was built from")
+		}
+	}
+	// the node starts over in the same storage: new pending credentials replace the completed ones
+	if c.Flow != "activation-token" {
+		fresh, err := types.NewNodeCredentials(w.Ctx, nodeStore, nodeOpts...)
+		if err != nil {
+			return fail("node-restart-failed", "creating new credentials over completed ones failed: %v", err)
+		}
+		back, err := types.LoadNodeCredentials(w.Ctx, nodeStore, nodeenrollment.CurrentId, nodeOpts...)
+		if err != nil || !proto.Equal(back, fresh) {
+			return fail("node-credentials-not-stored/after-restart", "new credentials written over completed ones do not load back equal (%v)", err)
+		}
+	}
+	nontrivial := c.StorageWrap || c.NodeWrap || c.Backend != "inmem" || c.NodeBackend != "inmem" || subst != "" || c.Flow == "wrapper"
 	cc := c
 	rec.Case("enroll/"+c.Flow+"/"+c.Backend, fmt.Sprintf("%+v", c), nontrivial, func() any { return cc })
 	return true
@@ -307,20 +343,22 @@ func TestEnum_Product(t *testing.T) {
 			for _, sw := range []bool{false, true} {
 				for _, nw := range []bool{false, true} {
 					for _, rc := range []string{"default", "both-valid"} {
-						i++
-						if i%shards != shard {
-							continue
-						}
-						c := config{Flow: f, Backend: b, StorageWrap: sw, NodeWrap: nw, Roots: rc, State: "marker", Subst: substs[i%len(substs)]}
-						if !enroll(t, c, vkit.UniqueStruct("st"), vkit.UniqueStruct("params"), c.Subst) {
-							return
+						for _, nb := range []string{"inmem", "file"} {
+							i++
+							if i%shards != shard {
+								continue
+							}
+							c := config{Flow: f, Backend: b, StorageWrap: sw, NodeWrap: nw, Roots: rc, NodeBackend: nb, State: "marker", Subst: substs[i%len(substs)]}
+							if !enroll(t, c, vkit.UniqueStruct("a-considerably-longer-state-marker-than-the-second-one"), vkit.UniqueStruct("params"), c.Subst) {
+								return
+							}
 						}
 					}
 				}
 			}
 		}
 	}
-	vkit.Rec(prop).Exhaustive("flow x back end x server storage wrapper x node storage wrapper x root configuration (96 tuples)", true)
+	vkit.Rec(prop).Exhaustive("flow x back end x server storage wrapper x node storage wrapper x root configuration x node storage back end (192 tuples)", true)
 }
 
 func TestProp_Random(t *testing.T) {
@@ -332,6 +370,7 @@ func TestProp_Random(t *testing.T) {
 			StorageWrap: rapid.Bool().Draw(t, "storageWrapper"),
 			NodeWrap:    rapid.Bool().Draw(t, "nodeWrapper"),
 			Roots:       rapid.SampledFrom([]string{"default", "both-valid"}).Draw(t, "roots"),
+			NodeBackend: rapid.SampledFrom([]string{"inmem", "file"}).Draw(t, "nodeBackend"),
 		}
 		state := vkit.GenStruct(t, "state")
 		params := vkit.GenStruct(t, "params")
